@@ -952,6 +952,11 @@ pub fn escape(s: &str) -> String {
                 escaped.push(c);
                 escaped.push(']');
             }
+            // A backslash escapes the next character by default, except
+            // where it is a path separator. It's literal inside brackets.
+            '\\' if !std::path::is_separator('\\') => {
+                escaped.push_str("[\\]");
+            }
             c => {
                 escaped.push(c);
             }
